@@ -711,6 +711,7 @@ def replace(eq: str, term: str, replacement: str, rhs_only: tp.Optional[bool] = 
     ################################################################
 
     eq_new = ""
+    prev = ""  # last character of the part of eq that has already been consumed ("" at the start of eq)
     idx = eq.find(term)
 
     # go through all appearances of term in eq
@@ -719,11 +720,11 @@ def replace(eq: str, term: str, replacement: str, rhs_only: tp.Optional[bool] = 
         # get idx of sign that follows after term
         idx_follow_op = idx+len(term)
 
-        # if it is an allowed sign, replace term, else not
+        # if term is enclosed by allowed signs (or the boundaries of the equation), replace term, else not
         replaced = False
-        if ((idx_follow_op < len(eq) and eq[idx_follow_op] in allowed_follow_ops) and
-           (idx == 0 or eq[idx-1] in allowed_follow_ops)) or \
-                (idx_follow_op == len(eq) and eq[idx-1] in allowed_follow_ops):
+        prev_sign = eq[idx-1] if idx > 0 else prev
+        if (prev_sign == "" or prev_sign in allowed_follow_ops) and \
+                (idx_follow_op == len(eq) or eq[idx_follow_op] in allowed_follow_ops):
             eq_part = eq[:idx]
             if (rhs_only and "=" in eq_part) or (lhs_only and "=" not in eq_part) or (not rhs_only and not lhs_only):
                 eq_new += f"{eq_part}{replacement}"
@@ -731,7 +732,8 @@ def replace(eq: str, term: str, replacement: str, rhs_only: tp.Optional[bool] = 
         if not replaced:
             eq_new += f"{eq[:idx_follow_op]}"
 
-        # jump to next appearance of term in eq
+        # jump to next appearance of term in eq (remember the character that precedes the remainder)
+        prev = eq[idx_follow_op-1]
         eq = eq[idx_follow_op:]
         idx = eq.find(term)
 
